@@ -225,6 +225,23 @@ Definition chk_C17 (c : chain_case) (o : op) (ok : bool) (prev cur : val) : list
       if flag_ok prev pid (fun f => snd (fst f)) &&
          (negb (Nat.eqb (List.length funds) 1) || flag_ok prev pid (fun f => fst (fst f))) then [] else [17]
   | Some (_, PmWithdraw pid, _) => if flag_ok prev pid snd then [] else [17]
+  | Some (_, PmUpdateConfig _ _ _ t, _) =>
+      (* a toggle changes exactly the switches it names, on the pool it names; every other switch of every pool stays *)
+      let expected (p : val) : bool * bool * bool :=
+        match pool_flags p, t with
+        | (sw, dp, wd), Some ft =>
+            if String.eqb (pool_id p) (ft_pool ft) then
+              (match ft_swaps ft with Some b => b | None => sw end,
+               match ft_deposits ft with Some b => b | None => dp end,
+               match ft_withdrawals ft with Some b => b | None => wd end)
+            else (sw, dp, wd)
+        | f, None => f
+        end in
+      if forallb (fun p => match find_pool cur (pool_id p) with
+                           | Some q => match expected p, pool_flags q with
+                                       | (a1, a2, a3), (b1, b2, b3) => Bool.eqb a1 b1 && Bool.eqb a2 b2 && Bool.eqb a3 b3 end
+                           | None => false end) (snap_pools prev)
+      then [] else [17]
   | _ => []
   end.
 
